@@ -99,7 +99,7 @@ fn check_encode(data: &Data, k: usize, r: usize, lens: &[usize]) -> Result<(), V
             }
         }
     }
-    let desc = format!("encode({k},{r},lens={lens:?})");
+    let desc = format!("encode({k},{r},lens=[{}])", fmt_lens(lens));
     match (&stream, &one) {
         (Ok(a), Ok(b)) => {
             if a != b {
@@ -186,7 +186,7 @@ fn check_decode(data: &Data, k: usize, r: usize, ol: &[(usize, usize)], rl: &[(u
     if distinct_o + distinct_r < k {
         truthful.push(Error::NotEnoughShards { original_count: k, original_received_count: distinct_o, recovery_received_count: distinct_r });
     }
-    let desc = format!("decode({k},{r},orig={:?},rec={:?})", ol.iter().map(|(i, l)| format!("{}:{l}B", fmt_usize(*i))).collect::<Vec<_>>(), rl.iter().map(|(i, l)| format!("{}:{l}B", fmt_usize(*i))).collect::<Vec<_>>());
+    let desc = format!("decode({k},{r},orig=[{}],rec=[{}]) (index:bytes)", fmt_items(ol), fmt_items(rl));
     match (&stream, &one) {
         (Ok(a), Ok(b)) => {
             if a != b {
@@ -230,16 +230,58 @@ fn fmt_items(v: &[(usize, usize)]) -> String {
     if v.is_empty() {
         return "-".into();
     }
-    v.iter().map(|(i, l)| format!("{}:{l}", fmt_usize(*i))).collect::<Vec<_>>().join(",")
+    // runs of consecutive indexes with one length are written a..b:len (long lists of the big count pairs)
+    let mut out: Vec<String> = Vec::new();
+    let mut i = 0;
+    while i < v.len() {
+        let mut j = i;
+        while j + 1 < v.len() && v[j + 1].1 == v[i].1 && v[j].0 != usize::MAX && v[j + 1].0 == v[j].0 + 1 {
+            j += 1;
+        }
+        if j - i >= 4 {
+            out.push(format!("{}..{}:{}", v[i].0, v[j].0 + 1, v[i].1));
+        } else {
+            for x in &v[i..=j] {
+                out.push(format!("{}:{}", fmt_usize(x.0), x.1));
+            }
+        }
+        i = j + 1;
+    }
+    out.join(",")
 }
 fn parse_items(s: &str) -> Vec<(usize, usize)> {
     if s == "-" {
         return vec![];
     }
-    s.split(',').map(|p| {
+    let mut out = Vec::new();
+    for p in s.split(',') {
         let (a, b) = p.split_once(':').unwrap();
-        (parse_usize(a), b.parse().unwrap())
-    }).collect()
+        let len: usize = b.parse().unwrap();
+        if let Some((lo, hi)) = a.split_once("..") {
+            for i in lo.parse::<usize>().unwrap()..hi.parse::<usize>().unwrap() {
+                out.push((i, len));
+            }
+        } else {
+            out.push((parse_usize(a), len));
+        }
+    }
+    out
+}
+fn fmt_lens(l: &[usize]) -> String {
+    if l.len() > 8 && l.iter().all(|x| *x == l[0]) {
+        format!("{}x{}", l[0], l.len())
+    } else {
+        fmt_list(l)
+    }
+}
+fn parse_lens(s: &str) -> Vec<usize> {
+    if let Some((a, n)) = s.split_once('x') {
+        vec![a.parse().unwrap(); n.parse().unwrap()]
+    } else if s == "-" || s.is_empty() {
+        vec![]
+    } else {
+        s.split(',').map(parse_usize).collect()
+    }
 }
 
 /// one call described as a tuple: encode(lens) or decode(orig, rec)
@@ -302,7 +344,7 @@ pub fn replay(_ctx: &Ctx, case: &str) -> Result<(), String> {
         return check_pair(&data, k, r, &Call::parse(kv.str("first")), &Call::parse(kv.str("second"))).map_err(|(e, o)| format!("expected {e}; observed {o}"));
     }
     let res = if kv.str("fn") == "encode" {
-        check_encode(&data, k, r, &kv.list("lens"))
+        check_encode(&data, k, r, &parse_lens(kv.str("lens")))
     } else {
         check_decode(&data, k, r, &parse_items(kv.str("orig")), &parse_items(kv.str("rec")))
     };
@@ -451,6 +493,46 @@ pub fn run(ctx: &Ctx, rep: &mut Report) {
             rep.violation(v);
         }
     }
+    // ---- unsupported count pairs with otherwise complete, valid input (also inside 1..=65536 and with a
+    // sum of at most 65536): the only truthful outcome is UnsupportedShardCount
+    let gaps: Vec<(usize, usize)> = vec![(3, 65533), (5, 65531), (65533, 3), (60000, 5000), (32769, 32767), (4097, 61439), (65535, 2), (2, 65535), (40000, 40000)];
+    let mut gap_cases: Vec<Kv> = Vec::new();
+    for &(k, r) in &gaps {
+        assert!(!spec_supports(Kind::Rs, k, r));
+        let base = Kv::new().with("k", k).with("r", r).with("seed", seed);
+        for b in [2usize, 64] {
+            if b == 64 && k > 10 {
+                continue;
+            }
+            let all: Vec<(usize, usize)> = (0..k).map(|i| (i, b)).collect();
+            gap_cases.push(base.clone().with("fn", "encode").with("lens", fmt_lens(&vec![b; k])));
+            gap_cases.push(base.clone().with("fn", "decode").with("orig", fmt_items(&all)).with("rec", "-"));
+            gap_cases.push(base.clone().with("fn", "decode").with("orig", fmt_items(&all)).with("rec", fmt_items(&[(0, b)])));
+            gap_cases.push(base.clone().with("fn", "decode").with("orig", fmt_items(&all[1..])).with("rec", fmt_items(&[(r - 1, b)])));
+            gap_cases.push(base.clone().with("fn", "decode").with("orig", fmt_items(&all[..k - 1])).with("rec", "-"));
+        }
+    }
+    let gap_results: Vec<Result<(), V>> = par_for(gap_cases.len(), 1, |i| {
+        let kv = &gap_cases[i];
+        let (k, r) = (kv.usize("k"), kv.usize("r"));
+        let data = Data::new(&refm, k, r, seed);
+        let res = guard(|| if kv.str("fn") == "encode" { check_encode(&data, k, r, &parse_lens(kv.str("lens"))) } else { check_decode(&data, k, r, &parse_items(kv.str("orig")), &parse_items(kv.str("rec"))) });
+        match res {
+            Ok(r) => r,
+            Err(p) => Err(("no panic".into(), format!("PANIC: {p}"))),
+        }
+    });
+    for (kv, res) in gap_cases.iter().zip(gap_results) {
+        if kv.str("fn") == "encode" {
+            n_enc += 1;
+        } else {
+            n_dec += 1;
+        }
+        if let Err((exp, obs)) = res {
+            rep.violation(Violation { key: format!("{}-k{}r{}-{}-{}", kv.str("fn"), kv.str("k"), kv.str("r"), kv.opt("lens").or(kv.opt("orig")).unwrap_or(""), kv.opt("rec").unwrap_or("")), case: kv.dump(), expected: exp, observed: obs });
+        }
+    }
+    rep.bound("unsupported_count_pairs", J::s(format!("{gaps:?}: encode with all originals; decode with all originals and no / one recovery shard, with one original replaced by a recovery shard, with one original missing")));
     // ---- call pairs on one thread
     let mut pair_total = 0u64;
     for &(k, r) in &[(2usize, 1usize), (2, 2), (3, 2)] {
